@@ -32,7 +32,7 @@ cd "$SCR/gosim" || exit 2
 if [ "$MODE" = race ]; then
   # the harness packages (simulator, cluster model, goroutine runtime) are compiled without race
   # instrumentation: only memory accesses of the code under test (and of the standard library) are watched
-  CGO_ENABLED=1 $GO build -race -gcflags='gosim/...=-race=false' -gcflags='github.com/tsuna/gohbase/verifsimrt=-race=false' \
+  CGO_ENABLED=1 $GO build -race -gcflags='gosim/...=-race=false' -gcflags='github.com/tsuna/gohbase/verifsimrt=-race=false' -gcflags='gosim/seam=-race' \
     -tags verif -overlay "$SCR/overlay.json" -o "$SCR/bin/simworker-race" ./cmd/simworker || { echo "build.sh: race worker build failed" >&2; exit 2; }
 else
   $GO build -tags verif -overlay "$SCR/overlay.json" -o "$SCR/bin/simworker" ./cmd/simworker || { echo "build.sh: worker build failed" >&2; exit 2; }
